@@ -1058,6 +1058,19 @@ def unit_slicing_native(cname):
                 bounded_in='one or two concrete geometries per class, slice [1:4]')
 
 
+def unit_factory_mirror_native(factory):
+    """BOUNDED (never counted as proved): necessary conditions of detector coverage for the 3-d factories that are not under contract - a volume and its mirror image in z get
+    detectors of equal extent and shape (a reflection maps rays to rays), and a volume does not get a shorter detector than a sub-volume."""
+    def run(ctx):
+        from contracts import replay_c19
+        try:
+            bad = replay_c19.check_factory_mirror(factory)
+        except Exception as e:
+            bad = 'native evaluation raised %s: %s' % (type(e).__name__, e)
+        ctx.bounded('factory: mirror-symmetric volumes get mirror-symmetric detectors, sub-volumes do not need more detector', not bad, {'factory': factory}, detail=bad)
+    return Unit('factory-native/mirror/%s' % factory, run, funcs=['odl.tomo.geometry:%s' % factory], kind='B', config={'factory': factory}, bounded_in='3 volumes, 3-d')
+
+
 def unit_canary():
     """must fail: the transpose of a 2d rotation claimed equal to the rotation"""
     def run(ctx):
@@ -1075,6 +1088,12 @@ def unit_canary():
 
 def replay(ob):
     from contracts import replay_c19
+    if ob.get('unit', '').startswith('factory-native/mirror/'):
+        try:
+            bad = replay_c19.check_factory_mirror(ob['unit'].split('/')[-1])
+        except Exception as e:
+            bad = 'raised %s: %s' % (type(e).__name__, e)
+        return {'reproduced': bool(bad), 'detail': bad or 'holds natively'}
     return replay_c19.replay(ob)
 
 
@@ -1098,5 +1117,7 @@ def units(tier, seed):
     for cn in SLICE_SPEC:
         us.append(unit_slicing(cn))
         us.append(unit_slicing_native(cn))
+    for fac in ('cone_beam_geometry', 'parallel_beam_geometry'):
+        us.append(unit_factory_mirror_native(fac))
     us.append(unit_canary())
     return us
